@@ -2687,6 +2687,32 @@ def check_c16(rep, tier, seed, wd, replay):
         g = go_r.get(c["id"])
         probs = []
         w = c["base"]["w"]
+        if g and g["ops"] and c["id"].endswith("_idx") and w["opts"]["use_statistics"]:
+            # Go's Info of a Python-written file: the statistics Python wrote are the true aggregates of what it was given
+            info = g["ops"][0]
+            stl = [l for l in info["info"] if l.startswith("stats ")]
+            if (info["head"] or "").startswith("info ok"):
+                calls = w["calls"]
+                msgs = [c2 for c2 in calls if c2[0] == "M"]
+                counts = {}
+                for m2 in msgs:
+                    counts[m2[1]] = counts.get(m2[1], 0) + 1
+                d2 = None
+                try:
+                    d2 = mcapspec.decode(c["base"]["file"], None, skip_magic=False)
+                except mcapspec.SpecError:
+                    pass
+                want = [len(msgs), sum(1 for c2 in calls if c2[0] == "S"), sum(1 for c2 in calls if c2[0] == "C"), sum(1 for c2 in calls if c2[0] == "A"),
+                        sum(1 for c2 in calls if c2[0] == "D"), len(d2["chunks"]) if d2 else None, min([m2[3] for m2 in msgs] or [0]), max([m2[3] for m2 in msgs] or [0]),
+                        ",".join("%d:%d" % kv2 for kv2 in sorted(counts.items())) or "-"]
+                if not stl:
+                    probs.append("Go Info of a Python-written file has no statistics although Python wrote them")
+                else:
+                    got = stl[0].split(" ")[1:]
+                    for k2, (a2, b2) in enumerate(zip(got, want)):
+                        if b2 is not None and str(a2) != str(b2):
+                            probs.append("Go Info of a Python-written file: statistics field %d is %s, the workload has %s (%s)" % (k2, a2, b2, stl[0]))
+                            break
         if g and g["ops"]:
             o = g["ops"][-1]
             if o["panic"]:
